@@ -64,7 +64,7 @@ Qed.
 (* ------------------------------------------------------------------ what the apply loop can build *)
 Section Proofs.
   Variable bvalid : list smom -> list blk -> blk -> bool.
-  Variable mvalid : list smom -> dmom -> bool.
+  Variable mvalid : list smom -> list blk -> dmom -> bool.
 
   (* the account block passed full verification on the chain the node holds or on an earlier state of it that the
      chain still extends (no own momentum of that state was abandoned since) *)
@@ -93,7 +93,8 @@ Section Proofs.
      verification itself, and extended the frontier *)
   Inductive grown : list smom -> list smom -> Prop :=
   | g_refl c : grown c c
-  | g_step c d c' : known_prev c (d_mom d) = true -> Forall (verified_on c) (d_blocks d) -> mvalid c d = true ->
+  | g_step c d c' : known_prev c (d_mom d) = true -> Forall (verified_on c) (d_blocks d) ->
+                    (exists p1, pool_verified c p1 /\ mvalid c p1 d = true) ->
                     extends c (d_mom d) = true -> grown (c ++ [d_mom d]) c' -> grown c c'.
 
   Lemma grown_prefix c c' : grown c c' -> is_prefix c c'.
@@ -138,7 +139,7 @@ Section Proofs.
     - inversion H; subst. split; [constructor|exact PV].
     - destruct (apply_blocks bvalid c p (d_blocks d)) as [okb p1] eqn:AB.
       destruct (apply_blocks_inv _ _ _ _ _ PV AB) as [PV1 FB].
-      destruct (okb && (known_prev c (d_mom d) && mvalid c d)) eqn:E.
+      destruct (okb && (known_prev c (d_mom d) && mvalid c p1 d)) eqn:E.
       + apply andb_true_iff in E. destruct E as [O E]. apply andb_true_iff in E. destruct E as [K V].
         destruct (extends c (d_mom d)) eqn:X.
         * assert (PV2 : pool_verified (c ++ [d_mom d]) (confirm (d_blocks d) p1)).
@@ -152,7 +153,7 @@ Section Proofs.
      not verify on the chain and with the pool the node holds afterwards *)
   Definition elem_fails (c : list smom) (p : list blk) (d : dmom) : Prop :=
     (exists b, In b (d_blocks d) /\ pooled b p = false /\ bvalid c p b = false) \/
-    known_prev c (d_mom d) && mvalid c d = false.
+    known_prev c (d_mom d) && mvalid c p d = false.
 
   Lemma apply_all_result ds : forall c p i r c' p', apply_all bvalid mvalid c p ds i = (r, (c', p')) ->
     r = ICOk \/
@@ -161,7 +162,7 @@ Section Proofs.
     induction ds as [|d ds IH]; cbn; intros c p i r c' p' H.
     - inversion H. auto.
     - destruct (apply_blocks bvalid c p (d_blocks d)) as [okb p1] eqn:AB.
-      destruct (okb && (known_prev c (d_mom d) && mvalid c d)) eqn:E.
+      destruct (okb && (known_prev c (d_mom d) && mvalid c p1 d)) eqn:E.
       + assert (R : forall c0 p0, apply_all bvalid mvalid c0 p0 ds (i + 1) = (r, (c', p')) ->
                     r = ICOk \/ exists pre x post, d :: ds = pre ++ x :: post /\
                       r = ICErr (i + Z.of_nat (length pre)) EInvalid /\ elem_fails c' p' x).
@@ -261,7 +262,7 @@ Section Proofs.
     revert c p i. induction ds as [|d ds IH]; cbn; intros c p i H.
     - inversion H; subst. apply is_prefix_refl.
     - destruct (apply_blocks bvalid c p (d_blocks d)) as [okb p1].
-      destruct (okb && (known_prev c (d_mom d) && mvalid c d)).
+      destruct (okb && (known_prev c (d_mom d) && mvalid c p1 d)).
       + destruct (extends c (d_mom d)).
         * eapply is_prefix_trans; [apply is_prefix_app|]. eapply IH, H.
         * eapply IH, H.
@@ -319,7 +320,7 @@ Section Proofs.
   Proof.
     induction ds as [|d ds IH]; cbn; intros c p i; [discriminate|].
     destruct (apply_blocks bvalid c p (d_blocks d)) as [okb p1].
-    destruct (okb && (known_prev c (d_mom d) && mvalid c d)); [|cbn; discriminate].
+    destruct (okb && (known_prev c (d_mom d) && mvalid c p1 d)); [|cbn; discriminate].
     destruct (extends c (d_mom d)); apply IH.
   Qed.
   Theorem no_panic clears c p ds : fst (insert_chain bvalid mvalid true clears c p ds) <> ICPanic.
@@ -351,7 +352,7 @@ Section Proofs.
   (* a momentum of the chain is either one the node started with or was adopted after full verification *)
   Definition justified (c0 : list smom) (m : smom) : Prop :=
     In m c0 \/ exists cur d, d_mom d = m /\ known_prev cur m = true /\ Forall (verified_on cur) (d_blocks d) /\
-                             mvalid cur d = true /\ extends cur m = true.
+                             (exists p1, pool_verified cur p1 /\ mvalid cur p1 d = true) /\ extends cur m = true.
 
   Lemma grown_justified c0 c c' : grown c c' -> Forall (justified c0) c -> Forall (justified c0) c'.
   Proof.
@@ -395,21 +396,21 @@ Proof.
   - repeat constructor; cbn; unfold two64; lia.
 Qed.
 Definition all_b (_ : list smom) (_ : list blk) (_ : blk) : bool := true.
-Definition all_m (_ : list smom) (_ : dmom) : bool := true.
+Definition all_m (_ : list smom) (_ : list blk) (_ : dmom) : bool := true.
 Theorem panic_before_fix :
   (exists c ds, wf_chain c /\ ds <> [] /\ fst (insert_chain all_b all_m false true c [] ds) = ICPanic) /\
   (exists c, wf_chain c /\ fst (insert_chain all_b all_m false true c [] []) = ICPanic).
 Proof.
   split.
-  - exists ex_local, [mkD (mkS 9 8 8) []]. split; [exact ex_local_wf|]. split; [discriminate|]. vm_compute. reflexivity.
+  - exists ex_local, [mkD (mkS 9 8 8) [] []]. split; [exact ex_local_wf|]. split; [discriminate|]. vm_compute. reflexivity.
   - exists ex_local. split; [exact ex_local_wf|]. reflexivity.
 Qed.
 
 (* ------------------------------------------------------------------ F11: rollback before verification *)
 (* a side chain forking below the frontier, longer than the own chain, whose second momentum is invalid *)
 Definition ex_side : list dmom :=
-  [mkD (mkS 13 2 3) []; mkD (mkS 14 13 4) []; mkD (mkS 15 14 5) []; mkD (mkS 16 15 6) []].
-Definition ex_valid (_ : list smom) (d : dmom) : bool := negb (s_hash (d_mom d) =? 14).
+  [mkD (mkS 13 2 3) [] []; mkD (mkS 14 13 4) [] []; mkD (mkS 15 14 5) [] []; mkD (mkS 16 15 6) [] []].
+Definition ex_valid (_ : list smom) (_ : list blk) (d : dmom) : bool := negb (s_hash (d_mom d) =? 14).
 
 Theorem leave_only_for_valid_refuted :
   exists bvalid mvalid c ds r c' p',
@@ -430,7 +431,7 @@ Definition b77 : blk := mkB 77 1 4.
    holds it unconfirmed; a longer side chain forking below momentum 5 carries it in its second momentum. *)
 Definition ex_ack5 (c : list smom) (_ : list blk) (_ : blk) : bool := existsb (fun m => s_hash m =? 5) c.
 Definition ex_side77 : list dmom :=
-  [mkD (mkS 13 2 3) []; mkD (mkS 14 13 4) [b77]; mkD (mkS 15 14 5) []; mkD (mkS 16 15 6) []].
+  [mkD (mkS 13 2 3) [] []; mkD (mkS 14 13 4) [b77] [b77]; mkD (mkS 15 14 5) [] []; mkD (mkS 16 15 6) [] []].
 Definition ex_adopted : list smom := [mkS 1 0 1; mkS 2 1 2; mkS 13 2 3; mkS 14 13 4; mkS 15 14 5; mkS 16 15 6].
 
 Lemma ex_pool_verified : pool_verified ex_ack5 ex_local [b77].
@@ -445,7 +446,7 @@ Theorem pool_kept_refuted :
 Proof.
   exists ex_ack5, all_m, ex_local, [b77], ex_side77, ex_adopted, [].
   split; [exact ex_local_wf|]. split; [exact ex_pool_verified|]. split; [vm_compute; reflexivity|].
-  exists (mkD (mkS 14 13 4) [b77]), b77. split; [cbn; auto|]. split; [cbn; auto 10|]. split; [cbn; auto|].
+  exists (mkD (mkS 14 13 4) [b77] [b77]), b77. split; [cbn; auto|]. split; [cbn; auto 10|]. split; [cbn; auto|].
   intros (c0 & p0 & (rest & E) & V). unfold ex_ack5 in V.
   assert (F : existsb (fun m => s_hash m =? 5) ex_adopted = false) by reflexivity.
   rewrite E, existsb_app, V in F. discriminate.
@@ -486,11 +487,11 @@ Proof. induction l as [|x l IH]; intros a; [reflexivity|]. cbn [map]. rewrite !l
 
 Section Partial.
   Variable bvalid : list smom -> list blk -> blk -> bool.
-  Variable mvalid : list smom -> dmom -> bool.
+  Variable mvalid : list smom -> list blk -> dmom -> bool.
   (* every account block (not pooled at that moment) and every momentum of the delivered chain verifies, in order *)
   Inductive valid_in_order : list smom -> list blk -> list dmom -> Prop :=
   | vio_nil c p : valid_in_order c p []
-  | vio_cons c p d r p1 : apply_blocks bvalid c p (d_blocks d) = (true, p1) -> mvalid c d = true ->
+  | vio_cons c p d r p1 : apply_blocks bvalid c p (d_blocks d) = (true, p1) -> mvalid c p1 d = true ->
                           valid_in_order (c ++ [d_mom d]) (confirm (d_blocks d) p1) r -> valid_in_order c p (d :: r).
 
   Definition in_range (m : smom) : Prop := 1 <= s_height m < two64.
@@ -617,7 +618,7 @@ Qed.
 
 (* reading before locking: the own pillar produces momentum 6 while the batch waits; the side chain 3'..6' from momentum 2
    is as long as the own chain now, and the node leaves its chain for it all the same *)
-Definition ex_own : list dmom := [mkD (mkS 6 5 6) []].
+Definition ex_own : list dmom := [mkD (mkS 6 5 6) [] []].
 Theorem stale_snapshot_refuted :
   exists bvalid mvalid c own ds c' p',
     wf_chain c /\ own <> [] /\
@@ -632,4 +633,65 @@ Qed.
 Example locked_example :
   insert_chain_locked all_b all_m true true (produce_all ex_own) (ex_local, []) ex_side =
   ((ex_local ++ [mkS 6 5 6], []), (ICErr 0 ENotLonger, (ex_local ++ [mkS 6 5 6], []))).
+Proof. vm_compute. reflexivity. Qed.
+
+(* ------------------------------------------------------------------ what an adopted momentum LISTS *)
+(* Supervisor.ApplyMomentum with its pool part explicit (Sync.apply_momentum, guard = false: the code): a momentum is
+   applied only if the pool holds a patch for every header of its content. Under the pool invariant this means: every
+   block an adopted momentum lists passed verification (when it was delivered with it, or earlier on a state the chain
+   still extends) - also the ones the sync loop never looks at (delivered BlockTypeContractSend blocks, headers
+   without any delivered block). *)
+Section Content.
+  Variable bvalid : list smom -> list blk -> blk -> bool.
+  Variable rest : list smom -> dmom -> bool.
+
+  Inductive grown_listed : list smom -> list smom -> Prop :=
+  | gl_refl c : grown_listed c c
+  | gl_step c d c' : Forall (verified_on bvalid c) (d_content d) -> rest c d = true -> extends c (d_mom d) = true ->
+                     grown_listed (c ++ [d_mom d]) c' -> grown_listed c c'.
+
+  Lemma held_verified c p d : pool_verified bvalid c p -> content_held p d = true -> Forall (verified_on bvalid c) (d_content d).
+  Proof.
+    unfold content_held, pool_verified. intros PV H. rewrite forallb_forall in H. rewrite Forall_forall in *.
+    intros h I. apply PV, pooled_in, H, I.
+  Qed.
+
+  Lemma grown_listed_of c c' : grown bvalid (apply_momentum false rest) c c' -> grown_listed c c'.
+  Proof.
+    induction 1 as [c|c d c' _ _ (p1 & PV & V) X _ IH]; [constructor|].
+    unfold apply_momentum in V. cbn [orb] in V. apply andb_true_iff in V. destruct V as [Hh Hr].
+    eapply gl_step; eauto. eapply held_verified; eauto.
+  Qed.
+
+  Theorem adopted_content_verified fixed c p ds r c' p' :
+    pool_verified bvalid c p ->
+    insert_chain bvalid (apply_momentum false rest) fixed true c p ds = (r, (c', p')) ->
+    exists kept, is_prefix kept c /\ grown_listed kept c' /\ pool_verified bvalid c' p'.
+  Proof.
+    intros PV H. destruct (only_verified _ _ _ _ _ _ _ _ _ PV H) as (kept & KP & G & PV').
+    exists kept. split; [exact KP|]. split; [apply grown_listed_of, G|exact PV'].
+  Qed.
+End Content.
+
+(* a momentum on top of the frontier whose content lists block 77; the block is delivered as a bare contract send (the
+   loop skips it: d_blocks = []), no contract receive carries it, nothing ever verified it *)
+Definition none_b (_ : list smom) (_ : list blk) (_ : blk) : bool := false.
+Definition all_r (_ : list smom) (_ : dmom) : bool := true.
+Definition ex_listing : list dmom := [mkD (mkS 6 5 6) [] [b77]].
+
+(* with the nil patch skipped the momentum is adopted: the node holds a momentum listing a block that never verified *)
+Theorem unheld_header_skipped_refuted :
+  exists bvalid rest c ds c' p',
+    wf_chain c /\ pool_verified bvalid c [] /\
+    insert_chain bvalid (apply_momentum true rest) true true c [] ds = (ICOk, (c', p')) /\
+    exists d h, In d ds /\ In (d_mom d) c' /\ In h (d_content d) /\ forall c0 p0, bvalid c0 p0 h = false.
+Proof.
+  exists none_b, all_r, ex_local, ex_listing, (ex_local ++ [mkS 6 5 6]), [].
+  split; [exact ex_local_wf|]. split; [constructor|]. split; [vm_compute; reflexivity|].
+  exists (mkD (mkS 6 5 6) [] [b77]), b77. split; [cbn; auto|]. split; [cbn; auto 10|]. split; [cbn; auto|].
+  reflexivity.
+Qed.
+(* the code: refused at index 0, nothing changes *)
+Example unheld_header_example :
+  insert_chain none_b (apply_momentum false all_r) true true ex_local [] ex_listing = (ICErr 0 EInvalid, (ex_local, [])).
 Proof. vm_compute. reflexivity. Qed.
